@@ -231,6 +231,7 @@ func (s *Server) followStep(host string, port int, followc int) error {
 	if int(s.followc.Load()) != followc {
 		return errNoLongerFollowing
 	}
+	verifPoint(s, "follow.step")
 	s.mu.Lock()
 	s.faofsz = 0
 	s.setCaughtUp(false)
@@ -269,6 +270,7 @@ func (s *Server) followStep(host string, port int, followc int) error {
 	if err != nil {
 		return err
 	}
+	verifPoint(s, "follow.checksome", pos)
 
 	// Send the replication port to the leader
 	p := s.config.announcePort()
@@ -328,7 +330,9 @@ func (s *Server) followStep(host string, port int, followc int) error {
 	s.mu.Unlock()
 
 	caughtUp := pos >= aofSize
+	verifPoint(s, "follow.aofsize", pos, aofSize)
 	if caughtUp {
+		verifPoint(s, "follow.caughtup", pos, aofSize)
 		s.setCaughtUp(true)
 		log.Info("caught up")
 	}
@@ -358,6 +362,7 @@ func (s *Server) followStep(host string, port int, followc int) error {
 		if !caughtUp {
 			if aofsz >= int(aofSize) {
 				caughtUp = true
+				verifPoint(s, "follow.caughtup", int64(aofsz), aofSize)
 				s.mu.Lock()
 				s.flushAOF(false)
 				s.setCaughtUp(true)
